@@ -109,7 +109,11 @@ func longNameCases(quickTier bool) ([]cases.ScanCase, []cases.ScanCase) {
 				if where == "root-argument" {
 					e := "refs/heads/main"
 					if long {
-						e += strings.Repeat("^0", (n-len(e))/2)
+						// one `^{/regexp}` step with a long bracket expression (any commit whose message has a letter or a
+						// digit): git resolves it without recursion; a chain of n/2 `^0` steps overflows git's own stack
+						// between 70 000 and 84 000 bytes (rev-parse dies of SIGSEGV), which is not git-sizer's doing
+						cls := "abcdefghijklmnopqrstuvwxyz0123456789"
+						e += "^{/[" + strings.Repeat(cls, (n-len(e)-6)/len(cls)+1)[:n-len(e)-6] + "]}"
 					}
 					sc.Args = []string{e}
 					sc.Roots = []cases.RootSpec{{O: model.Oid{K: "c", I: 1}, Walk: false, IsRef: true, Name: "refs/heads/main", Kind: "plain"},
@@ -268,6 +272,12 @@ func checkC19(c *Ctx) {
 		c.Distinct("odd:" + odd[i].ID + fmt.Sprint(odd[i].Names))
 		byID[a.Case.ID] = a
 		var gb []string
+		if a.Exit != 0 && strings.Contains(a.Stderr, "signal: segmentation fault") && b.Exit == 0 {
+			// the real git itself was killed by a signal on this input (nothing was injected here): outside what the
+			// property speaks about
+			c.Note("case %s: git itself died of a signal (%s): not judged", a.Case.ID, tail(a.Stderr, 1))
+			continue
+		}
 		if a.Exit != 0 || a.JSON == nil {
 			gb = append(gb, "no_report_or_invalid_json_v1")
 		} else if b.JSON != nil && keySet(a.JSON) != keySet(b.JSON) {
